@@ -1241,7 +1241,19 @@ func FromV3Response(ref *openapi3.ResponseRef, components *openapi3.Components) 
 		Extensions:  stripNonExtensions(response.Extensions),
 	}
 	if content := response.Content; content != nil {
-		if ct := content["application/json"]; ct != nil {
+		ct := content["application/json"]
+		if ct == nil {
+			// OpenAPI 2 has one schema per response: without a JSON media type take the first one's
+			mediaTypes := make([]string, 0, len(content))
+			for mediaType := range content {
+				mediaTypes = append(mediaTypes, mediaType)
+			}
+			sort.Strings(mediaTypes)
+			if len(mediaTypes) > 0 {
+				ct = content[mediaTypes[0]]
+			}
+		}
+		if ct != nil {
 			result.Schema, _ = FromV3SchemaRef(ct.Schema, components)
 		}
 	}
